@@ -26,12 +26,15 @@ TRUSTED = [
     "specification is checked per generated directory only",
     "opaque values (operation / task parameters, meta, challenge parameters, index bodies) are passed through as canonical JSON text",
     "index/composable/component templates of a track are not modelled (not generated)",
+    "template layer: the regex that recognises textual collect calls is mirrored by a hand-written scanner of the harness; glob is modelled for literal "
+    "directory components and `*`; Jinja2's variable visibility rule is a model assumption validated by the param_scopes stream",
 ]
 ASSUMPTIONS = [
     "values of the keys the reader interprets are of the JSON type the schema prescribes (the malformed stream covers the rest by exception class only)",
     "track-level and challenge-level `parameters` never define the same key with two objects or two arrays (merge_dicts would merge them recursively)",
     "source-file names contain no directory separator; OperationType member names are ASCII",
     "a schedule item with a `parallel` key has no other keys",
+    "the parts of a track directory do not include each other cyclically and collect patterns do not match sub-directories",
 ]
 
 # ---------------------------------------------------------------------------------------------
@@ -336,6 +339,7 @@ def run_impl(files, params, sel, track_file="track.json"):
         if sel is not None:
             cfg.add(config.Scope.application, "track", "challenge.name", sel)
         out = {}
+        extra = observe_assembly(tdir, track_file)
         with contextlib.redirect_stdout(_io.StringIO()):
             try:
                 reader = loader.TrackFileReader(cfg)
@@ -347,10 +351,123 @@ def run_impl(files, params, sel, track_file="track.json"):
                     out["defined"] = None
             except Exception as e:  # pylint: disable=broad-except
                 out = {"err": exc_class(e), "msg": str(e)[:300]}
+        out.update(extra)
         return out
     finally:
         tempfile.tempdir = old_tmp
         shutil.rmtree(d, ignore_errors=True)
+
+
+def observe_assembly(tdir, track_file):
+    """the assembled source TemplateSource produces for the directory, and the directory listing order glob will see"""
+    from esrally.track import loader
+
+    listing = {}
+    for root, dirs, names in os.walk(tdir):
+        rel = os.path.relpath(root, tdir)
+        listing["" if rel == "." else rel.replace(os.sep, "/")] = list(os.listdir(root))
+    res = {"listing": listing}
+    try:
+        ts = loader.TemplateSource(tdir, track_file)
+        ts.load_template_from_file()
+        res["assembled"] = ts.assembled_source
+    except Exception as e:  # pylint: disable=broad-except
+        res["assembled_err"] = exc_class(e)
+    return res
+
+
+# ---------------------------------------------------------------------------------------------
+# template assembly: independent tokeniser and expansion oracle
+# ---------------------------------------------------------------------------------------------
+def tokenize_collects(text):
+    """[["t", text] | ["c", pattern]]: the calls `{{ rally.collect(parts="PATTERN") }}` that are pre-expanded textually
+    (at least one blank after `{{` and before `}}`, double quotes, pattern on one line) — hand-written scanner"""
+    out, buf, i, n = [], [], 0, len(text)
+    head = 'rally.collect(parts="'
+    while i < n:
+        if text.startswith("{{", i):
+            j = i + 2
+            while j < n and text[j] == " ":
+                j += 1
+            if j > i + 2 and text.startswith(head, j):
+                start = j + len(head)
+                k = start + 1
+                found = None
+                while k < n and text[k - 1] != "\n":
+                    if text.startswith('")', k):
+                        e = k + 2
+                        while e < n and text[e] == " ":
+                            e += 1
+                        if e > k + 2 and text.startswith("}}", e):
+                            found = (k, e + 2)
+                            break
+                    k += 1
+                if found and "\n" not in text[start:found[0]]:
+                    if buf:
+                        out.append(["t", "".join(buf)])
+                        buf = []
+                    out.append(["c", text[start:found[0]]])
+                    i = found[1]
+                    continue
+        buf.append(text[i])
+        i += 1
+    if buf:
+        out.append(["t", "".join(buf)])
+    return out
+
+
+def py_expand(files, listing, base, text, depth=0):
+    """the property's own statement: every collect call is replaced by the files of its pattern relative to the
+    directory of the fragment that contains the call, joined with ",\n", recursively"""
+    import fnmatch
+
+    if depth > 30:
+        raise RecursionError()
+    out = []
+    for kind, val in tokenize_collects(text):
+        if kind == "t":
+            out.append(val)
+            continue
+        comps = val.split("/")
+        d = "/".join(([base] if base else []) + comps[:-1])
+        names = [nm for nm in listing.get(d, []) if (d + "/" + nm if d else nm) in files
+                 and fnmatch.fnmatchcase(nm, comps[-1]) and (not nm.startswith(".") or comps[-1].startswith("."))]
+        out.append(",\n".join(py_expand(files, listing, d, files[d + "/" + nm if d else nm], depth + 1) for nm in names))
+    return "".join(out)
+
+
+def model_files(files, listing):
+    out = []
+    for d, names in listing.items():
+        for nm in names:
+            path = d + "/" + nm if d else nm
+            if path in files:
+                out.append({"dir": d.split("/") if d else [], "name": nm, "pieces": tokenize_collects(files[path])})
+    return out
+
+
+def check_assembly(ctx, files, impl, track_file="track.json", use_model=True):
+    """model vs. code vs. oracle on the assembled source of one directory"""
+    if track_file not in files or "listing" not in impl:
+        return
+    if "assembled" not in impl:
+        ctx.diff("assembly raised", "assembled source", impl.get("assembled_err"))
+        return
+    try:
+        exp = py_expand(files, impl["listing"], "", files[track_file])
+    except RecursionError:
+        exp = None
+    if exp is not None and exp != impl["assembled"]:
+        ctx.fail("assembled-source-not-what-the-files-say", "the assembled source is not the main file with every rally.collect call replaced by "
+                 "the files of its pattern relative to the including fragment's directory", exp[:2000], impl["assembled"][:2000])
+    if use_model:
+        args = {"files": model_files(files, impl["listing"]), "main": tokenize_collects(files[track_file]), "fuel": 12}
+        m = ctx.model("tracktemplate", "assemble", args)
+        if m.get("r") != impl["assembled"]:
+            ctx.diff("assembled source (replaceIncludes)", (m.get("r") or m.get("err"))[:1500], impl["assembled"][:1500])
+        m2 = ctx.model("tracktemplate", "expand", args)
+        if m2.get("r") != impl["assembled"]:
+            ctx.diff("assembled source (expand)", (m2.get("r") or m2.get("err"))[:1500], impl["assembled"][:1500])
 
 
 # ---------------------------------------------------------------------------------------------
@@ -978,6 +1095,10 @@ class Writer:
         self.body_files = body_files or {}
         self.unordered_challenges = False
         self.allow_set = True
+        self.main_refs = []      # supplied parameters that are referenced outside the assembled source, too
+        self.macros = []         # own macro file, imported by the track file
+        self.helpers_import = rng.choice(["with-context", "plain", "plain"])   # plain = the documented idiom
+        self.macros_import = rng.choice(["with-context", "plain", "plain"])
         self.p_leaf = [0.0, 0.08, 0.3][level]
         self.p_cond = [0.0, 0.05, 0.2][level]
         self.p_decoy = [0.0, 0.05, 0.2][level]
@@ -989,6 +1110,13 @@ class Writer:
 
     def maybe(self, p):
         return self.rng.random() < p
+
+    def ref_in_main(self, p):
+        """a parameter that is used in a file Jinja pulls in at render time (macro include, imported macro) is only
+        accounted for if the assembled source mentions it as well"""
+        if p not in self.main_refs:
+            self.main_refs.append(p)
+        self.used.add(p)
 
     def other(self, v):
         if isinstance(v, bool):
@@ -1036,16 +1164,30 @@ class Writer:
         if not (is_bool or is_int or is_str):
             return lit
         p = self.pname()
-        variants = ["default", "default-tojson"]
-        if reg:
-            variants += ["supplied-default", "supplied", "supplied-tojson"] + (["set"] if self.allow_set else [])
+        variants = ["default", "default-tojson", "supplied-default", "supplied", "supplied-tojson"]
+        if reg and self.allow_set:
+            variants += ["set", "macro-default", "macro-supplied", "macro-supplied"]
         if is_bool:
-            variants = [x for x in variants if x.endswith("tojson")] or ["default-tojson"]
+            variants = [x for x in variants if x.endswith("tojson") or x.startswith("macro")]
         k = r.choice(variants)
-        self.features.add("leaf:" + k)
+        self.features.add("leaf:" + k + ("" if reg else "@render-time-file"))
         if reg:
             self.used.add(p)
+        elif k.startswith("supplied"):
+            self.ref_in_main(p)
         q = '"' if is_str else ""
+        if k.startswith("macro"):
+            # the value is produced by a macro of the track's own macro file
+            self.used.discard(p)
+            name = f"m_{self.np}"
+            if k == "macro-supplied":
+                self.params[p] = v
+                self.ref_in_main(p)
+                dflt = self.other(v)
+            else:
+                dflt = v
+            self.macros.append(f"{{% macro {name}() -%}}{{{{ {p} | default({jinja_lit(dflt)}) | tojson }}}}{{%- endmacro %}}")
+            return f"{{{{ tm.{name}() }}}}"
         if k == "default":
             return f"{q}{{{{ {p} | default({jinja_lit(v)}) }}}}{q}"
         if k == "default-tojson":
@@ -1073,12 +1215,12 @@ class Writer:
 
     def cond_wrap(self, seg, reg):
         r = self.rng
-        variants = ["default-true", "build-flavor", "not-serverless"]
-        if reg:
-            variants += ["supplied-flag", "is-defined"]
+        variants = ["default-true", "build-flavor", "not-serverless", "supplied-flag", "is-defined"]
         k = r.choice(variants)
-        self.features.add("if:" + k)
+        self.features.add("if:" + k + ("" if reg else "@render-time-file"))
         f = self.pname("flag")
+        if not reg and k in ("supplied-flag", "is-defined"):
+            self.ref_in_main(f)
         if k == "default-true":
             if reg:
                 self.used.add(f)
@@ -1146,28 +1288,47 @@ class Writer:
             segs.append((", " if i else "") + f"{json.dumps(k)}: {val}")
         return "{" + "".join(segs) + "}"
 
-    def emit_schedule(self, sched, reg, part_name, base_dir=""):
+    def emit_schedule(self, sched, reg, part_name, base_dir="", pattern=None, force=False):
+        """`part_name` is relative to `base_dir`, the directory of the fragment this schedule is written in — and so is
+        the pattern of the collect call"""
         if not isinstance(sched, list):
             return self.emit(sched, reg)
         items = [self.emit_obj(e, reg, None if (isinstance(e, dict) and "parallel" in e) else "task") if isinstance(e, dict) else self.emit(e, reg) for e in sched]
-        if len(items) >= 2 and reg and self.maybe(self.p_parts):
+        if len(items) >= 2 and reg and (force or self.maybe(self.p_parts)):
             cut = self.rng.randrange(1, len(items))
-            self.files[base_dir + part_name] = ",\n".join(items[cut:])  # nested parts are relative to the part's directory
+            self.files[base_dir + part_name] = ",\n".join(items[cut:])
             self.features.add("collect:schedule-tail")
-            return "[" + ", ".join(items[:cut]) + f', {{{{ rally.collect(parts="{part_name}") }}}} ]'
+            blanks = " " * self.rng.choice([1, 1, 2, 3])
+            return "[" + ", ".join(items[:cut]) + f', {{{{{blanks}rally.collect(parts="{pattern or part_name}"){blanks}}}}} ]'
         return "[" + ", ".join(items) + "]"
 
-    def emit_challenge(self, c, reg, idx, base_dir=""):
+    def emit_challenge(self, c, reg, idx, base_dir="", same_pattern=False):
         if not isinstance(c, dict):
             return self.emit(c, reg)
         segs = []
         for i, (k, v) in enumerate(c.items()):
-            if k == "schedule":
+            if k == "schedule" and same_pattern:
+                # every challenge directory uses the SAME relative pattern text for its own tasks
+                val = self.emit_schedule(v, reg, "tasks/tail.json", base_dir, pattern="tasks/*.json", force=True)
+            elif k == "schedule":
                 val = self.emit_schedule(v, reg, f"challenge-parts/schedule-{idx}.json", base_dir)
             else:
                 val = self.emit(v, reg)
             segs.append((", " if i else "") + f"{json.dumps(k)}: {val}")
         return "{" + "".join(segs) + "}"
+
+    def macro_collect(self, pattern):
+        """spellings of the collect call that the textual pre-expansion does not recognise: Jinja evaluates the
+        `rally.collect` macro of the imported helpers, which globs relative to the track directory and {% include %}s"""
+        k = self.rng.choice(["no-blanks", "single-quotes", "single-quotes-no-blanks", "inner-blanks"])
+        self.features.add("collect:macro-" + k)
+        if k == "no-blanks":
+            return '{{rally.collect(parts="%s")}}' % pattern
+        if k == "single-quotes":
+            return "{{ rally.collect(parts='%s') }}" % pattern
+        if k == "single-quotes-no-blanks":
+            return "{{rally.collect(parts='%s')}}" % pattern
+        return '{{ rally.collect( parts="%s" ) }}' % pattern
 
     def emit_indices(self, indices, reg):
         items = []
@@ -1190,34 +1351,67 @@ class Writer:
         need_import = False
         for i, (k, v) in enumerate(spec.items()):
             if k == "operations" and isinstance(v, list) and v and self.maybe(self.p_parts):
+                layout = r.choice(["glob", "glob", "per-directory", "macro"])
                 groups = [[] for _ in range(r.choice([1, 2, 3]))]
                 for o in v:
                     r.choice(groups).append(o)
                 groups = [g for g in groups if g]
-                for gi, g in enumerate(groups):
-                    items = [self.emit_obj(o, True, "op") if isinstance(o, dict) else self.emit(o, True) for o in g]
-                    if gi == 0 and len(items) >= 2 and self.maybe(0.5):
-                        # nested collect, relative to the directory of the part
-                        self.files["operations/more/extra.json"] = items.pop()
-                        items.append('{{ rally.collect(parts="more/extra.json") }}')
-                        self.features.add("collect:nested")
-                    self.files[f"operations/part-{gi}.json"] = ",\n".join(items)
-                val = '[ {{ rally.collect(parts="operations/*.json") }} ]'
-                self.features.add("collect:operations-%d-files" % min(len(groups), 2))
+                if layout == "macro":
+                    # parts included by the collect macro: rendered at render time, not part of the assembled source
+                    for gi, g in enumerate(groups):
+                        self.files[f"operations-rt/part-{gi}.json"] = ",\n".join(self.emit_obj(o, False, "op") if isinstance(o, dict) else self.emit(o, False) for o in g)
+                    val = "[ " + self.macro_collect("operations-rt/*.json") + " ]"
+                    need_import = True
+                    self.features.add("collect:macro-include")
+                elif layout == "per-directory":
+                    calls = []
+                    for gi, g in enumerate(groups):
+                        items = [self.emit_obj(o, True, "op") if isinstance(o, dict) else self.emit(o, True) for o in g]
+                        if len(items) >= 2:
+                            # the same relative pattern text in every group directory
+                            self.files[f"operations/g{gi}/more/extra.json"] = items.pop()
+                            items.append('{{ rally.collect(parts="more/*.json") }}')
+                            self.features.add("collect:same-pattern-text-in-several-directories")
+                        self.files[f"operations/g{gi}/ops.json"] = ",\n".join(items)
+                        calls.append('{{ rally.collect(parts="operations/g%d/*.json") }}' % gi)
+                    val = "[ " + ", ".join(calls) + " ]"
+                    self.features.add("collect:per-directory")
+                else:
+                    for gi, g in enumerate(groups):
+                        items = [self.emit_obj(o, True, "op") if isinstance(o, dict) else self.emit(o, True) for o in g]
+                        if gi == 0 and len(items) >= 2 and self.maybe(0.5):
+                            # nested collect, relative to the directory of the part
+                            self.files["operations/more/extra.json"] = items.pop()
+                            items.append('{{ rally.collect(parts="more/extra.json") }}')
+                            self.features.add("collect:nested")
+                        self.files[f"operations/part-{gi}.json"] = ",\n".join(items)
+                    val = '[ {{ rally.collect(parts="operations/*.json") }} ]'
+                    self.features.add("collect:operations-%d-files" % min(len(groups), 2))
             elif k == "operations" and isinstance(v, list):
                 val = "[" + ", ".join(self.emit_obj(o, True, "op") if isinstance(o, dict) else self.emit(o, True) for o in v) + "]"
             elif k == "challenges" and isinstance(v, list) and v and self.maybe(self.p_parts):
-                multi = len(v) >= 2 and self.maybe(0.5)
-                items = [self.emit_challenge(c, True, ci, "challenges/") for ci, c in enumerate(v)]
-                if multi:
-                    for ci, it in enumerate(items):
-                        self.files[f"challenges/c-{ci}.json"] = it
-                    self.unordered_challenges = True
-                    self.features.add("collect:challenges-multi-file")
+                layout = r.choice(["one-file", "multi-file", "per-directory", "per-directory"]) if len(v) >= 2 else r.choice(["one-file", "per-directory"])
+                if layout == "per-directory":
+                    # challenges/c<i>/challenge.json, each collecting its own tasks with the same relative pattern text
+                    calls = []
+                    for ci, c in enumerate(v):
+                        self.files[f"challenges/c{ci}/challenge.json"] = self.emit_challenge(c, True, ci, f"challenges/c{ci}/", same_pattern=True)
+                        calls.append('{{ rally.collect(parts="challenges/c%d/*.json") }}' % ci)
+                    val = "[" + ", ".join(calls) + "]"
+                    self.features.add("collect:per-directory")
+                    if sum(1 for f in self.files if f.endswith("/tasks/tail.json")) >= 2:
+                        self.features.add("collect:same-pattern-text-in-several-directories")
                 else:
-                    self.files["challenges/all.json"] = ",\n".join(items)
-                    self.features.add("collect:challenges-one-file")
-                val = '[{{  rally.collect(parts="challenges/*.json")  }}]'
+                    items = [self.emit_challenge(c, True, ci, "challenges/") for ci, c in enumerate(v)]
+                    if layout == "multi-file":
+                        for ci, it in enumerate(items):
+                            self.files[f"challenges/c-{ci}.json"] = it
+                        self.unordered_challenges = True
+                        self.features.add("collect:challenges-multi-file")
+                    else:
+                        self.files["challenges/all.json"] = ",\n".join(items)
+                        self.features.add("collect:challenges-one-file")
+                    val = '[{{  rally.collect(parts="challenges/*.json")  }}]'
             elif k == "challenges" and isinstance(v, list):
                 val = "[" + ", ".join(self.emit_challenge(c, True, ci) for ci, c in enumerate(v)) + "]"
             elif k == "challenge":
@@ -1228,7 +1422,7 @@ class Writer:
                 # macro path: no blanks inside the braces, so the regex does not match and Jinja's rally.collect macro
                 # globs and {% include %}s the part (parameters in there are rendered but not registered)
                 self.files["corpora/all.json"] = ",\n".join(self.emit(c, False) for c in v)
-                val = '[{{rally.collect(parts="corpora/*.json")}}]'
+                val = "[" + self.macro_collect("corpora/*.json") + "]"
                 need_import = True
                 self.features.add("collect:macro-include")
             elif k == "meta" and self.maybe(self.p_parts):
@@ -1245,7 +1439,14 @@ class Writer:
             segs.append(seg)
         head = ""
         if need_import or self.maybe(0.3):
-            head += '{% import "rally.helpers" as rally with context %}\n'
+            head += '{% import "rally.helpers" as rally with context %}\n' if self.helpers_import == "with-context" else '{% import "rally.helpers" as rally %}\n'
+            self.features.add("import-helpers:" + self.helpers_import)
+        if self.macros:
+            self.files["track-macros.j2"] = "\n".join(self.macros) + "\n"
+            head += '{% import "track-macros.j2" as tm with context %}\n' if self.macros_import == "with-context" else '{% import "track-macros.j2" as tm %}\n'
+            self.features.add("import-own-macros:" + self.macros_import)
+        for p_ in self.main_refs:
+            head += "{% if " + p_ + " is defined %}{# also used in a file that is pulled in at render time #}{% endif %}"
         if self.level and self.maybe(0.3):
             head += "{# generated track #}\n"
         head += "\n".join(self.sets) + ("\n" if self.sets else "")
@@ -1835,6 +2036,7 @@ RULE_MSG = {
 def run_case(ctx, case):
     kind = case["kind"]
     impl = run_impl(case["files"], case["params"] or None, case["sel"], case.get("track_file", "track.json"))
+    check_assembly(ctx, case["files"], impl, case.get("track_file", "track.json"))
     typed = [[e["type"], e["kind"]] for e in typed_positions(case["spec"])]
     m = ctx.model("trackspec", "load", {"spec": case["spec"], "sel": case["sel"], "user": sorted(case["params"].keys()), "used": case["used"], "typed": typed})
     mm = {"ok": norm(m["r"])} if "r" in m else {"err": m["err"]}
@@ -1966,6 +2168,186 @@ def run_schema_types(ctx, case):
     ctx.count("position:" + case["position"])
     ctx.count("declared:" + case["rule"].split(":")[1].split("-given-")[0])
     run_case(ctx, case)
+
+
+# ---------------------------------------------------------------------------------------------
+# assembly stream: random directory trees of text fragments (not tracks) through TemplateSource
+# ---------------------------------------------------------------------------------------------
+def gen_assembly(ctx):
+    rng = ctx.rng
+    dir_names = ["a", "b", "tasks", "parts", "challenges"]
+    for _ in range(ctx.budget):
+        # a tree of directories, depth <= 3
+        dirs, level = [""], [""]
+        for depth in range(3):
+            nxt = []
+            for d in level:
+                for nm in rng.sample(dir_names, rng.choice([0, 1, 2, 2, 3]) if depth else rng.choice([1, 2, 3])):
+                    nxt.append(d + "/" + nm if d else nm)
+            dirs += nxt
+            level = nxt
+        files = {}
+        uid = [0]
+
+        def chunk():
+            uid[0] += 1
+            return rng.choice(["<%d>", "{\"k\": %d}", "t%d ", "\n%d\n", '"%d"']) % uid[0]
+
+        def collect_call(pattern):
+            k = rng.randrange(10)
+            b1, b2 = " " * rng.choice([1, 1, 2, 4]), " " * rng.choice([1, 1, 3])
+            if k == 0:
+                return '{{rally.collect(parts="%s")}}' % pattern       # not pre-expanded: no blanks
+            if k == 1:
+                return "{{ rally.collect(parts='%s') }}" % pattern     # not pre-expanded: single quotes
+            if k == 2:
+                return '{{ rally.collect( parts="%s") }}' % pattern    # not pre-expanded: inner blank
+            return '{{%srally.collect(parts="%s")%s}}' % (b1, pattern, b2)
+
+        def patterns_for(d, same_dir_ok):
+            # patterns only descend (sub-directories of d), so that the directory is acyclic; the main file may also
+            # collect *.part files of its own directory
+            subs = sorted({x[len(d) + 1 if d else 0:].split("/")[0] for x in dirs if x != d and (x.startswith(d + "/") if d else True)})
+            pats = []
+            for sd in subs + ["nomatch"]:
+                pats += [sd + "/*.json", sd + "/*.*", sd + "/x.json", sd + "/*.part", sd + "/x*"]  # no pattern that would match a sub-directory
+                for sd2 in dir_names[:3]:
+                    pats.append(sd + "/" + sd2 + "/*.json")
+            if same_dir_ok:
+                pats += ["*.part", "x*.part"]
+            return pats
+
+        # a few pattern texts that every fragment of this directory likes to use, whatever directory it lives in:
+        # the same relative text then means different files under different base directories
+        favourites = rng.sample([x + "/" + y for x in dir_names for y in ("*.json", "x.json", "*.part", "x*")], 3)
+        for fav in favourites:
+            shallow = [x for x in dirs if x.count("/") <= 1 and (x == "" or x.count("/") < 2)]
+            for parent in rng.sample(shallow, min(3, len(shallow))):
+                nd = parent + "/" + fav.split("/")[0] if parent else fav.split("/")[0]
+                if nd not in dirs and nd.count("/") <= 2:
+                    dirs.append(nd)
+
+        def content(d, same_dir_ok=False):
+            pats = patterns_for(d, same_dir_ok)
+            pats = pats + favourites * (1 + len(pats) // 3)
+            out = []
+            for _ in range(rng.choice([1, 2, 3, 4])):
+                out.append(chunk())
+                if rng.random() < 0.6:
+                    out.append(collect_call(rng.choice(pats)))
+                    if rng.random() < 0.25:
+                        out.append(chunk())
+                        out.append(collect_call(out[-2].split('"')[1] if '"' in out[-2] else rng.choice(pats)))  # the same pattern twice
+            out.append(chunk())
+            return "".join(out)
+
+        for d in dirs:
+            if d == "":
+                continue
+            for nm in rng.sample(["x.json", "y.json", "x1.json", "z.txt", ".hidden.json", "x.part", "README"], rng.choice([1, 2, 3, 4])):
+                files[d + "/" + nm] = content(d)
+        for nm in rng.sample(["x.part", "x2.part", "other.part"], rng.choice([0, 1, 2])):
+            files[nm] = content("")  # descends only
+        files["track.json"] = content("", same_dir_ok=True)
+        texts = [p for f in files.values() for k, p in tokenize_collects(f) if k == "c"]
+        yield {"files": files, "same_text_several_dirs": len(texts) != len(set(texts))}
+
+
+def run_assembly(ctx, case):
+    d = tempfile.mkdtemp(prefix="c10a-")
+    try:
+        for rel, contentv in case["files"].items():
+            p = os.path.join(d, rel)
+            os.makedirs(os.path.dirname(p), exist_ok=True)
+            with open(p, "w", encoding="utf-8") as f:
+                f.write(contentv)
+        impl = observe_assembly(d, "track.json")
+    finally:
+        shutil.rmtree(d, ignore_errors=True)
+    check_assembly(ctx, case["files"], impl)
+    toks = [t for f in case["files"].values() for t in tokenize_collects(f)]
+    pats = [p for k, p in toks if k == "c"]
+    depth = max((p.count("/") for p in pats), default=0)
+    dirs_with_same_text = len(pats) - len(set(pats))
+    ctx.count("collect-calls", len(pats))
+    ctx.count("cases-with-a-pattern-text-used-more-than-once", 1 if dirs_with_same_text else 0)
+    ctx.sig([min(len(pats) // 4, 10), min(dirs_with_same_text // 2, 6), depth, min(len(case["files"]) // 4, 8), min(len(impl.get("assembled", "")) // 150, 10)],
+            nontrivial=bool(pats))
+
+
+# ---------------------------------------------------------------------------------------------
+# param_scopes stream: which value a reference to a track parameter gets at every kind of place
+# ---------------------------------------------------------------------------------------------
+SCOPES = ["main", "included", "importedWithContext", "importedPlain", "collectedWithContext", "collectedPlain", "body"]
+
+
+def gen_param_scopes(ctx):
+    rng = ctx.rng
+    names = ["p", "bulk_size", "number_of_replicas", "build_flavor", "serverless_operator", "range", "my_flag"]
+    n_ = 0
+    for _ in range(ctx.budget):
+        sc = SCOPES[(ctx.shard * ctx.budget + n_) % len(SCOPES)]
+        n_ += 1
+        name = rng.choice(names)
+        user = {}
+        if rng.random() < 0.7:
+            user[name] = rng.choice(["U", 250, "user value"])
+        for other in rng.sample(names, rng.choice([0, 1, 2])):
+            user.setdefault(other, rng.choice(["O", 7]))
+        yield {"scope": sc, "name": name, "user": user, "default": rng.choice(["D", "5000"]), "spelling": rng.randrange(4)}
+
+
+def run_param_scopes(ctx, case):
+    from esrally.track import loader
+
+    sc, n, dflt, user = case["scope"], case["name"], case["default"], case["user"]
+    ref = "R=[{{ %s | default('%s') }}]" % (n, dflt)
+    files = {}
+    if sc == "main":
+        files["track.json"] = ref
+    elif sc == "included":
+        files["track.json"] = '{% include "inc.txt" %}'
+        files["inc.txt"] = ref
+    elif sc in ("importedWithContext", "importedPlain"):
+        files["track.json"] = '{% import "m.j2" as m' + (" with context" if sc == "importedWithContext" else "") + " %}{{ m.f() }}"
+        files["m.j2"] = "{% macro f() %}" + ref + "{% endmacro %}"
+    elif sc in ("collectedWithContext", "collectedPlain"):
+        call = ['{{rally.collect(parts="parts/*.txt")}}', "{{ rally.collect(parts='parts/*.txt') }}", "{{rally.collect(parts='parts/*.txt')}}",
+                '{{ rally.collect( parts="parts/*.txt" ) }}'][case["spelling"]]
+        files["track.json"] = '{% import "rally.helpers" as rally' + (" with context" if sc == "collectedWithContext" else "") + " %}" + call
+        files["parts/p.txt"] = ref
+    d = tempfile.mkdtemp(prefix="c10p-")
+    try:
+        for rel, contentv in files.items():
+            p = os.path.join(d, rel)
+            os.makedirs(os.path.dirname(p), exist_ok=True)
+            with open(p, "w", encoding="utf-8") as f:
+                f.write(contentv)
+        try:
+            if sc == "body":
+                out = loader.render_template(template_source=ref, template_vars=dict(user),
+                                             template_internal_vars={"globals": {"build_flavor": "default", "serverless_operator": False}})
+            else:
+                out = loader.render_template_from_file(os.path.join(d, "track.json"), dict(user), complete_track_params=None,
+                                                       build_flavor="default", serverless_operator=False)
+            got = out.strip()
+        except Exception as e:  # pylint: disable=broad-except
+            got = "raised " + type(e).__name__
+    finally:
+        shutil.rmtree(d, ignore_errors=True)
+    internal = [["build_flavor", "default"], ["serverless_operator", "False"]]
+    builtins = [["range", str(range)], ["dict", str(dict)]]  # Jinja's built-in globals with a stable rendering
+    m = ctx.model("tracktemplate", "render_ref", {"user": [[k, str(v)] for k, v in user.items()], "internal": internal, "builtins": builtins,
+                                                   "scope": sc, "n": n, "d": dflt})
+    exp_model = "R=[" + m["r"] + "]"
+    if exp_model != got:
+        ctx.diff("value of a parameter reference", exp_model, got)
+    # direct oracle: a supplied parameter (that is not one of Rally's own variables) is substituted wherever it occurs
+    if n in user and n not in ("build_flavor", "serverless_operator") and got != "R=[" + str(user[n]) + "]":
+        ctx.fail("user-param-not-substituted:" + sc, f"reference to the supplied track parameter {n} at a place of kind {sc}", "R=[" + str(user[n]) + "]", got)
+    if n in ("build_flavor", "serverless_operator") and got != "R=[" + {"build_flavor": "default", "serverless_operator": "False"}[n] + "]":
+        ctx.fail("internal-variable-overridden:" + sc, f"Rally's variable {n}", None, got)
+    ctx.sig([sc, m.get("tags"), n in user, got.startswith("raised")], nontrivial=n in user)
 
 
 # ---------------------------------------------------------------------------------------------
@@ -2204,8 +2586,10 @@ def run_splitext(ctx, case):
 
 STREAMS = [
     Stream("valid_tracks", gen_valid, run_case, quick=1280, thorough=24000, shards=16),
-    Stream("rule_violations", gen_violations, run_case, quick=896, thorough=16800, shards=16),
-    Stream("schema_types", gen_schema_types, run_schema_types, quick=960, thorough=16000, shards=16),
+    Stream("rule_violations", gen_violations, run_case, quick=896, thorough=11200, shards=16),
+    Stream("schema_types", gen_schema_types, run_schema_types, quick=960, thorough=12000, shards=16),
+    Stream("assembly", gen_assembly, run_assembly, quick=1600, thorough=16000, shards=16),
+    Stream("param_scopes", gen_param_scopes, run_param_scopes, quick=700, thorough=14000, shards=4),
     Stream("malformed", gen_malformed, run_malformed, quick=504, thorough=8400, shards=8),
     Stream("operation_types", gen_optypes, run_optypes, quick=400, thorough=20000, shards=2),
     Stream("splitext", gen_splitext, run_splitext, quick=1000, thorough=40000, shards=2),
